@@ -86,6 +86,12 @@ Proof.
   - rewrite eta, app_nil_r in H. exact H.
 Qed.
 
+(* a shadow read inside a guarded block has no effect of its own: hoist it so that the block can be merged *)
+Lemma postx_if_get : forall B C (c : bool) (P : Config -> prog B) (Q0 : prog B) (k : B -> prog C) d g j (Q : QT C) (QF : QFT),
+  postx (bind (if c then P d else Q0) k) d g j Q QF ->
+  postx (bind (if c then bind get_shadow P else Q0) k) d g j Q QF.
+Proof. intros B C c P Q0 k d g j Q QF H. destruct c; exact H. Qed.
+
 Lemma if_ghost : forall (c : bool) a1 b1 c1 a2 b2 c2,
   (if c then mk_ghost a1 b1 c1 else mk_ghost a2 b2 c2) = mk_ghost (if c then a1 else a2) (if c then b1 else b2) (if c then c1 else c2).
 Proof. intros [] *; reflexivity. Qed.
@@ -130,6 +136,8 @@ Ltac sx_step :=
   | |- postx (bind (write_register ?A ?V) (fun _ => bind (bind (modify ?F) (fun _ => Ret tt)) (fun _ => ?K))) ?d ?g ?j ?Q ?QF =>
       let a := eval vm_compute in A in
       lens_of a ltac:(fun get put eta => refine (postx_wm2 _ put a V F K d g j Q QF (fun x => eq_refl) _)); norm_state
+  | |- postx (bind (if ?c then bind get_shadow ?P else ?Q0) ?k) ?d ?g ?j ?Q ?QF =>
+      refine (postx_if_get _ _ c P Q0 k d g j Q QF _); cbv beta
   | |- postx (bind (if ?c then (let x := ?e in @?P x) else ?Q0) ?k) ?d ?g ?j ?Q ?QF =>
       let x' := fresh "v" in let Hx := fresh "E" x' in
       pose (x' := e); assert (Hx : x' = e) by reflexivity;
